@@ -48,6 +48,13 @@ package crashmonitor
 // line (in particular not the blank line or the "created by" line that ends the
 // running goroutine's block) is stepped over without being classified.
 //@   at loop 1 end: assert i == iterentry(i)+1
+// The block of the first running goroutine ends at the first blank line or
+// "created by" line: a turn that began inside the block and looked at such a line
+// leaves the loop (no later goroutine's text is scanned).
+//@   loop 1: invariant on ==> parentSentinel != 0
+//@   at loop 1 end: assert !(iterentry(on) && line == "")
+//@   at loop 1 end: assert !(iterentry(on) && strings.HasPrefix(line, "created by "))
+//@   at loop 1 end: assert iterentry(on) ==> on
 //@   loop 1: invariant 0 <= i && i <= len(lines)
 //@   loop 1: decreases len(lines)-i
 //@   modifies $child, $rawpc
